@@ -8,7 +8,9 @@ DIR_NAMES = ["A", "AB", "a", "s", "t", "sub dir", "é", "pa\u2029ra", "Clips", "
 CONTENTS = ["", "a", "b", "hello", "HELLO", "hello\n", "0", "\x00\xff", "same", "same", "x" * 100]
 PATTERNS = ["*.tmp", "*.bak", "tmp", "tmp/", "a.txt", "A", "s/", "*.mov", "d?e.txt", "[ab].txt", "Clips", "é", "data.*", "t", "s/t", "/a.txt", "A/*.txt", "s/*.bin"]
 # order matters in these: a negation re-includes what an EARLIER pattern excluded
-PATTERN_SETS = [["*.txt", "!a.txt"], ["*.tmp", "!data.tmp"], ["*.bak", "!keep.bak"], ["*", "!*.txt"], ["A", "!A"], ["*.mov", "!A001.mov", "a001.mov"], ["!a.txt", "*.txt"], ["s/", "!s/"], ["/s", "!b.txt"]]
+# (negations of FILE-name patterns only: a negation that matches a folder on the way to an `ascmhl` folder, such as "!A",
+# re-includes that history folder as well - outside the domain of every property, see DESIGN.md section 9)
+PATTERN_SETS = [["*.txt", "!a.txt"], ["*.tmp", "!data.tmp"], ["*.bak", "!keep.bak"], ["*.bin", "!c.bin"], ["*.mov", "!A001.mov", "a001.mov"], ["!a.txt", "*.txt"], ["/s", "!b.txt"], ["d*", "!d e.txt"]]
 
 
 class FsSim:
